@@ -23,6 +23,7 @@ type Ctx struct {
 	stackF           *stackFacts
 	includeValidator *types.Func
 	pureNN           map[*ssa.Function]int
+	nonNilMemo       map[*types.Func]int
 	dispatch         map[string]*types.Func
 	pasteR           *pasteRoles
 }
@@ -57,6 +58,7 @@ func Run(r *obl.Report) error {
 		return err
 	}
 	c := &Ctx{R: r, P: p, Deep: deep, an: map[string]*scanfsm.Analysis{}}
+	c.installAnchorFallback()
 	c.loaderAssertions()
 	spec.f(c)
 	return nil
